@@ -60,6 +60,10 @@ def forceDen (cfg : Cfg) : E → Bool
   | .quot false _ _ => cfg.mpQuotient
   | _ => false
 
+/-- `FCodeMapper.map_power`'s test on the base: `isinstance(base, Power) and not ParenthesisedPow`, or the printed base starts with `-` -/
+def powBaseParen (a : E) (printed : List Tok) : Bool :=
+  (match a with | .pow false _ _ => true | _ => false) || (printed.head? == some minus)
+
 /-- one term of `map_sum`: `np` = the minus-term operand tokens if the child is a minus-one product, `pf` = the child
 printed at `PREC_SUM` -/
 def termTok (np : Option (List Tok)) (pf : List Tok) (first : Bool) : List Tok :=
@@ -87,8 +91,9 @@ def printF (cfg : Cfg) : E → Nat → List Tok
   | .quot par a b, p =>
       let body := printF cfg a PREC_PRODUCT ++ [slash] ++ parenIf (forceDen cfg b) (printF cfg b PREC_PRODUCT)
       if par then paren body else parenIf (decide (p > PREC_PRODUCT)) body
+  -- `FCodeMapper.map_power`: a base that is itself an unparenthesised power, or whose text starts with a sign, is parenthesised
   | .pow par a b, p =>
-      let body := printF cfg a PREC_POWER ++ [Tok.pow] ++ printF cfg b PREC_POWER
+      let body := parenIf (powBaseParen a (printF cfg a PREC_POWER)) (printF cfg a PREC_POWER) ++ [Tok.pow] ++ printF cfg b PREC_POWER
       if par then paren body else parenIf (decide (p > PREC_POWER)) body
   | .cmp o a b, p =>
       parenIf (decide (p > PREC_COMPARISON)) (printF cfg a PREC_COMPARISON ++ [Tok.cmp o] ++ printF cfg b PREC_COMPARISON)
